@@ -161,7 +161,7 @@ func TestC15(t *testing.T) {
 						if m.Streaming {
 							kind = "stream"
 						}
-						op := fmt.Sprintf("%s %d %s %s -", kind, inbound, pstr, m.Full)
+						op := fmt.Sprintf("%s %d %s %s .", kind, inbound, pstr, m.Full)
 						e.Emit(op, dec)
 						e.Evals++
 						e.Distinct(fnv(op + tr))
